@@ -181,7 +181,11 @@ func runAt(feature xmpp.StreamFeature, cfg clientCfg, location, origin jid.JID, 
 		rw = WrapConn(conn)
 	}
 	obs.panic = nd.Catch(func() {
-		s, err = xmpp.NewSession(context.Background(), location, origin, rw, 0, xmpp.NewNegotiator(func(*xmpp.Session, *xmpp.StreamConfig) xmpp.StreamConfig {
+		ctx := context.Background()
+		if WrapCtx != nil {
+			ctx = WrapCtx(ctx)
+		}
+		s, err = xmpp.NewSession(ctx, location, origin, rw, 0, xmpp.NewNegotiator(func(*xmpp.Session, *xmpp.StreamConfig) xmpp.StreamConfig {
 			return xmpp.StreamConfig{Features: features, TeeIn: teeIn, TeeOut: teeOut}
 		}))
 	})
@@ -367,6 +371,10 @@ func init() {
 
 // WrapConn, if set, wraps the scripted connection (fault injection by C04).
 var WrapConn func(*sess.Reactive) io.ReadWriter
+
+// WrapCtx, if set, derives the context the session is established with
+// (cancellation injection by C04).
+var WrapCtx func(context.Context) context.Context
 
 // TLSHandshake runs the full STARTTLS + SASL + bind handshake with an explicit
 // TLS configuration against the lock-step TLS peer and reports the outcome.
